@@ -18,6 +18,7 @@ def P(qr, qw, tr, tw, **kw):
 PLAN = {
     "C01": P(6000, 75, 200000, 900),
     "C02": P(5000, 75, 150000, 900),
+    "C09": P(1200, 100, 30000, 1200, chunk=150),
     "C08": P(2500, 90, 60000, 900),
     "C07": P(1500, 100, 30000, 1200, chunk=150),
     "C06": P(1500, 100, 40000, 1200, chunk=150),
@@ -26,6 +27,11 @@ PLAN = {
 }
 
 LEVELS = {
+    "C09": {"level": "exploration", "rule": RULE,
+            "text": "(a) 2..5 clients create the same repository name concurrently under sampled orders of their create-if-absent writes (next to repositories whose names are prefixes/extensions): exactly one succeeds and the descriptor is the winner's; (b) delete / rename / delete-files on one of 2-3 repositories with prefix-related names, overlapping content and labels, with a concurrent reader of another repository: afterwards the target has no object left (delete), or the same bundle ids, files and labels under the new name and nothing under the old (rename), or every bundle downloads to its previous files minus the deleted paths (delete-files); every byte of every other repository, of the blob store and of the label store is unchanged (backend snapshot diff)",
+            "note": "trusts simstore; histories built with real uploads and label sets",
+            "components": {"real": ["pkg/core repo create/delete/rename/delete-files/list/download", "pkg/cafs"], "stub": STUB},
+            "assumptions": ["histories of completed operations only (no leftovers)", "bundles with more than one index file (1001 files) only in the thorough tier"]},
     "C08": {"level": "exploration", "rule": RULE,
             "text": "(a) seeded histories of set / overwrite / delete / get / list / prefix-filtered list over 2-3 repositories with prefix-related names and label names from the documented alphabet plus hostile ones, checked step by step against a map model, with the acceptance rule (an accepted name must resolve and every listing must still work) and the per-event invariant that a label operation writes only its own label object and never the metadata store; (b) 2-3 clients running set/get/delete on one label concurrently under sampled interleavings, the recorded history (event-sequence stamps) checked for linearizability against a register-with-delete model with porcupine",
             "note": "porcupine 'unknown' (time-out) is counted, never reported; trusts simstore (optionally with object versioning)",
